@@ -810,9 +810,19 @@ def r_lexer_modes(r, prog):
     lx = prog.fn(SL + 'lex_next_slice_token')
     L = 'slicec::parsers::slice::lexer::Lexer'
     ws = []
-    for bb, j, lhs, rv, s in lx.assigns():
+    for bb, j, lhs, rv, st in lx.assigns():
         if [x for x in lhs.get('p', []) if isinstance(x, dict) and x.get('n') == 'attribute_mode'] and not lx.blocks[bb].get('cleanup'):
-            ws.append((vexpr(lx, rv['a']) if rv['k'] == 'use' else rv['k'], [g for g in guards.guard_set(prog, lx, bb) if g.startswith('arg2 ==')]))
+            gs_all = guards.guard_set(prog, lx, bb)
+            ws.append((vexpr(lx, rv['a']) if rv['k'] == 'use' else rv['k'], [g for g in gs_all if g.startswith('arg2 ==')]))
+            # ... on every path through its arm: both the single and the double bracket open (close) an attribute
+            want = '91' if (rv['k'] == 'use' and vexpr(lx, rv['a']) == '1') else '93'
+            entry = [tgt for blk in lx.blocks if blk['t']['k'] == 'switch' and blk['t']['ty'] == 'char' and vexpr(lx, blk['t']['d']) == 'arg2' for v, tgt in blk['t']['ts'] if v == want]
+            if not entry:
+                raise AnchorMissing('the arm of lex_next_slice_token for character %s' % want)
+            if not must_pass(lx, entry[0], lx.return_blocks(), [bb]):
+                r.finding('attribute-mode-conditional:%s' % want, lx.span, 'attribute_mode is not written on every path through the arm for %s: `[[` / `]]` (or the single bracket) leaves the mode as it was, and keywords inside such an attribute are lexed as keywords' % ('"["' if want == '91' else '"]"'))
+            else:
+                r.ok('attribute_mode = %s on every path through the arm for %s' % (vexpr(lx, rv['a']) if rv['k'] == 'use' else '?', '"["' if want == '91' else '"]"'))
     if sorted(ws) == [('0', ['arg2 == 93']), ('1', ['arg2 == 91'])]:
         r.ok('attribute mode is entered on "[" and left on "]"')
     else:
